@@ -66,8 +66,12 @@ func (s *httpProxy) Handle(ctx context.Context, conn net.Conn) error {
 
 	defer conn2.Close()
 
+	// one reader per leg for the whole connection: bytes read ahead (a
+	// pipelined request, the start of the next reply) must not be lost
+	reader := bufio.NewReader(conn)
+	reader2 := bufio.NewReader(conn2)
+
 	for {
-		reader := bufio.NewReader(conn)
 		req, err := http.ReadRequest(reader)
 		if err == io.EOF {
 			return nil
@@ -101,7 +105,6 @@ func (s *httpProxy) Handle(ctx context.Context, conn net.Conn) error {
 
 		var resp *http.Response
 
-		reader2 := bufio.NewReader(conn2)
 		resp, err = http.ReadResponse(reader2, req)
 		if err == io.EOF {
 			return nil
